@@ -272,6 +272,28 @@ func boundaryPrograms() []string {
 		}
 		out = append(out, "f := func("+strings.Join(ps, ", ")+") { return p0 + p"+fmt.Sprint(k-1)+" }\nout := f("+strings.Join(as, ", ")+")\n")
 	}
+	// k selectors in an assignment (one-byte operand of OpSetSel*), on a global, a local and a captured variable (O35)
+	for _, k := range []int{254, 255, 256, 257} {
+		out = append(out, "a := {}\nif false {\n a"+strings.Repeat("[0]", k)+" = 1\n}\n")
+		out = append(out, "f := func() {\n a := {}\n if false { a"+strings.Repeat(".k", k)+" += 1 }\n}\n")
+		out = append(out, "f := func() {\n a := {}\n return func() { if false { a"+strings.Repeat(".k", k)+" = 2 } }\n}\n")
+	}
+	// element counts around the two-byte operands of OpArray / OpMap (O35), on a path that is never taken
+	for _, k := range []int{65535, 65536} {
+		out = append(out, "out := 0\nif out == 1 {\n x := ["+strings.TrimSuffix(strings.Repeat("1,", k), ",")+"]\n}\nout = 5\n")
+	}
+	for _, k := range []int{32767, 32768} {
+		var sb strings.Builder
+		sb.WriteString("out := 0\nif out == 1 {\n x := {")
+		for i := 0; i < k; i++ {
+			if i > 0 {
+				sb.WriteString(",")
+			}
+			fmt.Fprintf(&sb, "k%d:1", i)
+		}
+		sb.WriteString("}\n}\nout = 5\n")
+		out = append(out, sb.String())
+	}
 	// jumps across the 64 KiB mark: in main and inside a function literal
 	var body strings.Builder
 	for i := 0; i < 11500; i++ {
